@@ -289,7 +289,7 @@ class _Run:
         try:
             for i in range(k):
                 if isinstance(s, ast.For):
-                    self.assign(s.target, ("iter", it, s.lineno, i), env, s)
+                    self.assign(s.target, self.element(it, s.lineno, i), env, s)
                     self.ev("loop-iter", node=s, it=it, index=i)
                 else:
                     t = self.eval(s.test, env)
@@ -307,6 +307,21 @@ class _Run:
             self.loopdepth -= 1
         if not broke:
             self.block(s.orelse, env)
+
+    def element(self, it: V, lineno: int, i: int) -> V:
+        """The i-th element produced by iterating `it`; zip / enumerate / [k:] slices are resolved to elements of the
+        underlying sequences so that the same element has the same identity in different loops."""
+        if isinstance(it, tuple) and it and it[0] == "call" and it[1] == "zip" and it[2]:
+            return ("tuple", tuple(self.element(a, lineno, i) for a in it[2]))
+        if isinstance(it, tuple) and it and it[0] == "call" and it[1] == "enumerate" and len(it[2]) == 1:
+            return ("tuple", (const(i), self.element(it[2][0], lineno, i)))
+        if isinstance(it, tuple) and it and it[0] == "sub" and isinstance(it[2], tuple) and it[2][0] == "slice" and it[2][2] is None and it[2][3] is None:
+            k = it[2][1]
+            if k is None:
+                return self.element(it[1], lineno, i)
+            if is_const(k) and isinstance(k[1], int) and k[1] >= 0:
+                return self.element(it[1], lineno, i + k[1])
+        return ("iter", it, lineno, i)
 
     def assign(self, t, v, env, node, aug=False):
         if isinstance(t, ast.Name):
@@ -547,7 +562,7 @@ class _Run:
         gens = []
         for g in e.generators:
             it = self.eval(g.iter, env2)
-            self.assign(g.target, ("iter", it, getattr(e, "lineno", 0), 0), env2, e)
+            self.assign(g.target, self.element(it, getattr(e, "lineno", 0), 0), env2, e)
             conds = tuple(self.eval(c, env2) for c in g.ifs)
             gens.append((it, conds))
         if kind == "dictcomp":
@@ -625,7 +640,7 @@ class _Run:
         parts = []
         for i in range(k):
             env2 = dict(env)
-            self.assign(g.target, ("iter", it, lineno, i), env2, comp)
+            self.assign(g.target, self.element(it, lineno, i), env2, comp)
             self.ev("loop-iter", node=comp, it=it, index=i)
             conds = [self.eval(c, env2) for c in g.ifs]
             elt = self.eval(comp.elt, env2)
